@@ -13,7 +13,7 @@ import inspect
 import logging
 import threading
 from abc import ABC, abstractmethod
-from collections.abc import Callable, Iterable, Sized
+from collections.abc import Callable, Iterable, Mapping, Sized
 from dataclasses import dataclass, field
 from functools import wraps
 from itertools import count
@@ -1777,18 +1777,20 @@ class ExecutionTracer(AbstractExecutionTracer):  # noqa: PLR0904
         if attribute in {"__getattr__", "__getitem__"}:
             return -1
         # Check if the dictionary of the object on which lookup is performed
-        if (
-            hasattr(object_type, "__dict__")
-            and object_type.__dict__
-            and attribute in object_type.__dict__
-        ):
+        # Read __dict__ / __slots__ without going through a user-defined __getattr__ or
+        # __getattribute__, which may return anything (or have side effects) for these names.
+        try:
+            instance_dict = object.__getattribute__(object_type, "__dict__")
+        except (AttributeError, TypeError):
+            instance_dict = None
+        if isinstance(instance_dict, Mapping) and attribute in instance_dict:
             return id(object_type)
-        if (
-            hasattr(object_type, "__slots__")
-            and object_type.__slots__
-            and attribute in object_type.__slots__
-        ):
-            return id(object_type)
+        for clss in type(object_type).__mro__:
+            slots = clss.__dict__.get("__slots__", ())
+            if isinstance(slots, str):
+                slots = (slots,)
+            if isinstance(slots, Iterable) and attribute in slots:
+                return id(object_type)
 
         # Check if attribute in MRO hierarchy (no need for data descriptor)
         for clss in type(object_type).__mro__:
